@@ -9,7 +9,7 @@ git diff -- src Cargo.toml > "$dst/patch.diff"
 [ -s "$dst/patch.diff" ] || { echo "no source change in $wt"; exit 2; }
 suite=$(cargo nextest run --workspace --lib --no-fail-fast --offline 2>&1 | grep -E "Summary" | sed 's/^ *//')
 if [ -f tests/mutant_demo.rs ]; then demo="cargo test --offline --test mutant_demo"; cp tests/mutant_demo.rs "$dst/"; 
-elif [ -f examples/mutant_demo.rs ]; then demo="cargo run --offline --example mutant_demo"; cp examples/mutant_demo.rs "$dst/";
+elif [ -f examples/mutant_demo.rs ]; then demo="cargo run --offline --release --example mutant_demo"; cp examples/mutant_demo.rs "$dst/";
 else echo "no demo found"; exit 2; fi
 $demo >/tmp/demo_with.log 2>&1; rc_with=$?
 git apply -R "$dst/patch.diff" || { echo "cannot revert"; exit 2; }
